@@ -136,7 +136,7 @@ fn scroll_heavy(src: &mut Src, g: &G) -> String {
     s
 }
 
-fn gen_case(src: &mut Src, _i: usize) -> Case {
+pub fn gen_case(src: &mut Src, _i: usize) -> Case {
     let (cols, rows) = if src.chance(1, 25) { (80, 24) } else { gen::small_size(src) };
     let limit = *src.pick(&LIMITS);
     let mut g = G::new(cols, rows).with_raw(2);
